@@ -66,3 +66,7 @@ T("C15", "twin-artifact-start-conditional-expression", "artifact.py", _AK_START,
 T("C15", "twin-artifact-start-rebound-parameter", "artifact.py", _AK_START, "    if start_offset is None:\n        start_offset = fobj.tell()\n    pos = start_offset\n")
 T("C15", "twin-artifact-start-seek-result", "artifact.py", _AK_START, "    if start_offset is None:\n        pos = fobj.tell()\n    else:\n        pos = fobj.seek(start_offset, 0)\n")
 T("C15", "twin-artifact-start-early-branches", "artifact.py", _AK_START, "    if start_offset is None:\n        pos = fobj.tell()\n    else:\n        fobj.seek(start_offset)\n        pos = fobj.tell()\n")
+
+# restart position held in a temporary
+T("C15", "twin-restart-through-temporary", "utils.py", "            p = d.find(needle, p + 1)\n", "            start = p + 1\n            p = d.find(needle, start)\n")
+M("C15", "restart-temporary-at-the-match", "utils.py", "            p = d.find(needle, p + 1)\n", "            start = p if p > 0 else 0\n            p = d.find(needle, start)\n", "C15.R4")
